@@ -1001,11 +1001,51 @@ class PendingFunctionDef(_PendingCompoundStmt[FunctionDef]):
                 keywords=[],
             )
 
-        if self.internal_nsp.is_method and self.node.name == "__init_subclass__":
-            # We need to add a @classmethod for __init_subclass__
-            # that's really weird, but really solves problem
+        if self.internal_nsp.is_method and self.node.name in (
+            "__init_subclass__",
+            "__class_getitem__",
+        ):
+            # type.__new__ turns these two hooks into classmethods when they are
+            # plain functions. The class is filled with setattr afterwards, so do
+            # the same here, for a plain function only: an explicit @classmethod
+            # must not be wrapped a second time.
+            hook = Name(id=OL_HOOK_FUNCTION, ctx=Load())
+            no_args = arguments(
+                posonlyargs=[], args=[], kwonlyargs=[], kw_defaults=[], defaults=[]
+            )
             body_expr = Call(
-                func=Name(id="classmethod", ctx=Load()),
+                func=Lambda(
+                    args=arguments(
+                        posonlyargs=[],
+                        args=[arg(arg=OL_HOOK_FUNCTION)],
+                        kwonlyargs=[],
+                        kw_defaults=[],
+                        defaults=[],
+                    ),
+                    body=IfExp(
+                        test=Compare(
+                            left=Call(
+                                func=Name(id="type", ctx=Load()),
+                                args=[hook],
+                                keywords=[],
+                            ),
+                            ops=[Is()],
+                            comparators=[
+                                Call(
+                                    func=Name(id="type", ctx=Load()),
+                                    args=[Lambda(args=no_args, body=Constant(value=0))],
+                                    keywords=[],
+                                )
+                            ],
+                        ),
+                        body=Call(
+                            func=Name(id="classmethod", ctx=Load()),
+                            args=[hook],
+                            keywords=[],
+                        ),
+                        orelse=hook,
+                    ),
+                ),
                 args=[body_expr],
                 keywords=[],
             )
